@@ -372,10 +372,29 @@ class LoopGen:
         for _ in range(r.randint(1, 3)):
             c = r.random()
             flag = self.fresh('q')
-            if c < 0.3:
+            if c < 0.2:
                 out.append(Node('assign', PV(flag), self.anyall(sc, lists)))
                 sc[flag] = 'B'
                 self.features.add('fuse-assign')
+            elif c < 0.3:
+                # a reduction nested directly in the element of another reduction; the inner comprehension
+                # reads the outer comprehension variable, which may also be bound before the statement
+                x, y = self.fresh('e'), self.fresh('f')
+                xs, ys = r.choice(lists), r.choice(lists)
+                if r.random() < 0.5:
+                    out.append(Node('assign', PV(x), self.leaf(sc)))
+                    sc[x] = 'R'
+                    self.features.add('fuse-nested-outer-bound-before')
+                inner = Node(r.choice(['any', 'all']),
+                             Node('comp', [(PV(y), V(ys))], Node('cmp', [r.choice(['<', '<=', '>', '!='])], [V(y), V(x)])))
+                k = r.random()
+                if k < 0.25:
+                    inner = Node('not', inner)
+                elif k < 0.5:
+                    inner = Node(r.choice(['and', 'or']), [Node('cmp', ['>'], [V(x), self.leaf(sc)]), inner])
+                out.append(Node('assign', PV(flag), Node(r.choice(['any', 'all']), Node('comp', [(PV(x), V(xs))], inner))))
+                sc[flag] = 'B'
+                self.features.add('fuse-nested-reduction')
             elif c < 0.45:
                 body = self.body(dict(sc), 0, [], lists, 1, allow_ret=True)
                 out.append(Node('if1', self.anyall(sc, lists), body))
@@ -439,3 +458,32 @@ class LoopGen:
         ys = [N.of(r.choice(self.VALS)) for _ in range(n)]
         k = N.of(kf if kf is not None else r.choice([1, 2, 3, 0.5, -1, 4]))
         return [xs, ys, k, N.of(r.choice(self.VALS))]
+
+
+def corpus():
+    """Fixed programs run on every seed: [(family, Program)].  Reductions nested in the element of a reduction, the
+    inner comprehension reading the outer comprehension variable -- unbound outside, or also bound before."""
+    def cmpn(o, a, b):
+        return Node('cmp', [o], [a, b])
+
+    def nested(outer, inner, o):
+        return Node(outer, Node('comp', [(PV('x'), V('xs'))],
+                                Node(inner, Node('comp', [(PV('y'), V('ys'))], cmpn(o, V('y'), V('x'))))))
+
+    def prog(pre, q, ret):
+        body = [Node('assign', PV('acc'), V('a0'))] + pre + [
+            Node('assign', PV('q'), q),
+            Node('if1', V('q'), [Node('assign', PV('acc'), Node('op2', 'add', V('acc'), lit(1)))]),
+            Node('return', Node('tuple', ret))]
+        return Program([Func('main', ['xs', 'ys', 'kf', 'a0'], None, body)])
+    out = []
+    for outer, inner, o in (('all', 'any', '<'), ('any', 'all', '>'), ('all', 'all', '!=')):
+        out.append(('fuse', prog([], nested(outer, inner, o), [V('acc'), V('xs')])))
+        # the outer comprehension variable is also a variable of the function, bound before and not read after
+        out.append(('fuse', prog([Node('assign', PV('x'), V('kf'))], nested(outer, inner, o), [V('acc'), V('ys')])))
+    # the nested reduction under a connective in the element
+    out.append(('fuse', prog([], Node('any', Node('comp', [(PV('x'), V('xs'))],
+                                                   Node('and', [cmpn('>', V('x'), V('a0')),
+                                                                Node('all', Node('comp', [(PV('y'), V('ys'))], cmpn('<=', V('y'), V('x'))))]))),
+                             [V('acc'), V('xs')])))
+    return out
